@@ -70,12 +70,8 @@ def evaluate(prop, imports, fam, to_coq, cases, what=("check", "oracle"), tag="c
         except Exception as e:
             outs[i] = {"harness_error": "cannot render case: %r" % (e,)}
             failed.append(i)
-    res = {}
-    err = None
-    for w in what:
-        bad, e = vlib.run_model_checks(prop, imports, terms, check=w, tag=tag + "_" + w)
-        res[w] = [keep[b] for b in bad]
-        err = err or e
+    bads, err = vlib.run_model_checks_multi(prop, imports, terms, checks=tuple(what), tag=tag)
+    res = {w: [keep[b] for b in bads[w]] for w in what}
     return outs, res.get("check", []), res.get("oracle", []), sorted(failed), err
 
 
